@@ -420,7 +420,7 @@ class NativeMonotone(NativeCheck):
                    'the relaxation; restrictive switches give a subset')
     bound = ('demo inputs (test/files: 6 GVFs, 9 transcripts), complexity limits disabled (-1); ordered pairs: miscleavage 0<1<2<3, '
              'min_length 9>7>5, max_length 15<25<35, min_mw 1000>500>0, SECT / W2F / coding-novel-orf off<on, one GVF added at a time, '
-             'noncanonical-transcripts and backsplicing-only vs unrestricted; quick 10 pairs, thorough all (~30)')
+             'noncanonical-transcripts and backsplicing-only vs unrestricted; quick 10 pairs, thorough all (~30); plus SECT off<on on test/files/fuzz/51 with its circRNA')
     quick_budget_s = 200
     thorough_budget_s = 900
     _cache = {}
@@ -431,6 +431,9 @@ class NativeMonotone(NativeCheck):
         if key not in self._cache:
             gv = kw.pop('gvfs', None)
             opts = dict(max_variants_per_node=[-1], additional_variants_per_misc=[-1])
+            for nm in ('genome_fasta', 'annotation_gtf', 'proteome_fasta'):
+                if nm in kw:
+                    kw[nm] = cv_run.DATA / kw[nm]
             opts.update(kw)
             f, _ = cv_run.run_call_variant(gvfs=gv, **opts)
             self._cache[key] = f
@@ -454,6 +457,10 @@ class NativeMonotone(NativeCheck):
         if tier != 'thorough':
             rng.shuffle(pairs)
             pairs = pairs[:10]
+        # a second reference (test/files/fuzz/51: one transcript with two annotated selenocysteines, one circRNA over the first of them)
+        ref51 = dict(genome_fasta='fuzz/51/genome.fasta', annotation_gtf='fuzz/51/annotation.gtf', proteome_fasta='fuzz/51/proteome.fasta',
+                     gvfs=['fuzz/51/fake_circ_rna.gvf'])
+        pairs.append((dict(ref51), dict(ref51, selenocysteine_termination=True), 'selenocysteine_termination'))
         for a, b, what in pairs:
             yield dict(strict=a, relaxed=b, what=what)
 
@@ -463,8 +470,9 @@ class NativeMonotone(NativeCheck):
         call = f"callVariant {inp['strict']} vs {inp['relaxed']}"
         if not sa <= sb:
             lost = sorted(sa - sb)
+            import hashlib
             return dict(call=call, observed=dict(lost=lost[:8], n_lost=len(lost)), expected='subset of the more permissive run',
-                        signature='not-monotone:' + inp['what'])
+                        signature='not-monotone:' + inp['what'] + ':' + hashlib.sha256('|'.join(lost).encode()).hexdigest()[:12])
         # attribution of the added peptides
         added = {h: s_ for h, s_ in b.items() if s_ not in sa}
         what = inp['what']
